@@ -11,22 +11,42 @@ stronger relation `K c c' := Le c c' ∧ (RecInv c → RecInv c')`.
 namespace PdModel.OpCtl
 open PdModel.Steps PdModel.Spec
 
+/-- the region has a record -/
+def HasRec (c : Ctl) (r : Nat) : Prop := c.records.any (fun x => x.1 == r) = true
+
 structure K (c c' : Ctl) : Prop where
   le : Le c c'
   keeps : RecInv c → RecInv c'
+  mono : ∀ r, HasRec c r → HasRec c' r
 
-theorem K.refl (c : Ctl) : K c c := ⟨Le.refl c, id⟩
-theorem K.trans {a b c : Ctl} (h1 : K a b) (h2 : K b c) : K a c := ⟨Le.trans h1.le h2.le, fun h => h2.keeps (h1.keeps h)⟩
+theorem K.refl (c : Ctl) : K c c := ⟨Le.refl c, id, fun _ h => h⟩
+theorem K.trans {a b c : Ctl} (h1 : K a b) (h2 : K b c) : K a c := ⟨Le.trans h1.le h2.le, fun h => h2.keeps (h1.keeps h), fun r h => h2.mono r (h1.mono r h)⟩
 
 theorem K.of_eq {c c' : Ctl} (h1 : c'.ops = c.ops) (h2 : c'.views = c.views)
     (h3 : c'.maxWaiting = c.maxWaiting) (h4 : c'.records = c.records) : K c c' :=
-  ⟨Le.of_eq h1 h2 h3, recInv_of_le c c' (Le.of_eq h1 h2 h3) h4⟩
+  ⟨Le.of_eq h1 h2 h3, recInv_of_le c c' (Le.of_eq h1 h2 h3) h4, fun r h => by unfold HasRec at *; rw [h4]; exact h⟩
 
 theorem k_setOp' (c : Ctl) (k : Nat) (o o' : Op) (h : c.getOp k = some o) (hr : Rel o o') :
     K c (c.setOp o') :=
-  ⟨le_setOp' c k o o' h hr, recInv_of_le c _ (le_setOp' c k o o' h hr) rfl⟩
+  ⟨le_setOp' c k o o' h hr, recInv_of_le c _ (le_setOp' c k o o' h hr) rfl, fun _ h => h⟩
 
-theorem k_bury (c : Ctl) (id : Nat) : K c (bury c id) := ⟨le_bury c id, recInv_bury c id⟩
+theorem hasRec_bury (c : Ctl) (id r : Nat) (h : HasRec c r) : HasRec (bury c id) r := by
+  cases hg : c.getOp id with
+  | none => unfold bury; rw [hg]; exact h
+  | some o =>
+    rw [bury_eq c id o hg]
+    unfold HasRec at *
+    simp only [List.any_cons, List.any_filter, Bool.or_eq_true]
+    by_cases e : (buried o).region = r
+    · left; simp [e]
+    · right
+      rw [List.any_eq_true] at h ⊢
+      obtain ⟨x, hx, hxr⟩ := h
+      refine ⟨x, hx, ?_⟩
+      have hx1 : x.1 = r := by simpa using hxr
+      simp [hx1, Ne.symm e]
+
+theorem k_bury (c : Ctl) (id : Nat) : K c (bury c id) := ⟨le_bury c id, recInv_bury c id, hasRec_bury c id⟩
 
 theorem k_removeLocked (c : Ctl) (o : Op) : K c (removeLocked c o).1 := by
   unfold removeLocked
@@ -416,6 +436,45 @@ theorem recInv_runEv (c : Ctl) (evs : List Ev) (hi : RecInv c) : RecInv (runEv c
   induction evs generalizing c with
   | nil => exact hi
   | cons e rest ih => exact ih _ (recInv_stepEv c e hi)
+
+/-- **a region that has a record keeps having one** (the model has no TTL; PD's record cache forgets after
+    ten minutes) -/
+theorem hasRec_stepEv (c : Ctl) (e : Ev) (r : Nat) (h : HasRec c r) : HasRec (stepEv c e).1 r := by
+  cases e with
+  | putRegion v => exact h
+  | delRegion x => exact h
+  | newOp n =>
+    simp only [stepEv]
+    split
+    · exact h
+    · exact h
+  | add ids => exact (k_addOperator c ids).mono r h
+  | addWaiting ids rs => exact (k_addWaiting c ids rs).mono r h
+  | promote rs => exact (k_promote c rs).mono r h
+  | heartbeat v rs =>
+    have g : HasRec (putView c v) r := h
+    exact (k_dispatch (putView c v) v true rs).mono r g
+  | push rs => exact (k_pushOperators c rs).mono r h
+  | remove id => exact (k_removeOperator c id).mono r h
+  | expire id =>
+    simp only [stepEv]
+    split
+    · exact h
+    · exact h
+  | markTimeout id =>
+    simp only [stepEv]
+    split
+    · split
+      · exact h
+      · exact h
+    · exact h
+  | sleep ms => exact h
+  | influence => exact (k_touchRunning c).mono r h
+
+theorem hasRec_runEv (c : Ctl) (evs : List Ev) (r : Nat) (h : HasRec c r) : HasRec (runEv c evs) r := by
+  induction evs generalizing c with
+  | nil => exact h
+  | cons e rest ih => exact ih _ (hasRec_stepEv c e r h)
 
 theorem recInv_empty : RecInv ({} : Ctl) := by
   intro r k hk
